@@ -92,9 +92,11 @@ func (r *REPL) Run(line string) error {
 		// FIXME detect EOF properly!
 		errText := errorMessage(err)
 		if strings.Contains(errText, "unexpected EOF while parsing") || strings.Contains(errText, "EOF while scanning triple-quoted string literal") {
+			// A line holding only white space or a comment
+			// is not the start of a statement
 			stripped := strings.TrimSpace(toCompile)
-			isComment := len(stripped) > 0 && stripped[0] == '#'
-			if !isComment {
+			isBlankOrComment := len(stripped) == 0 || stripped[0] == '#'
+			if !isBlankOrComment {
 				r.continuation = true
 				r.previous += string(line) + "\n"
 				r.term.SetPrompt(ContinuationPrompt)
